@@ -208,6 +208,7 @@ func insertAt(a []string, pos int, x ...string) []string {
 }
 
 func gen(tier string, rng *h.Rng, emit func(string)) {
+	genEv(tier, rng, emit)
 	thorough := tier == "thorough"
 	kinds := []string{"sys", "user", "url"}
 	fl := 0
@@ -256,7 +257,9 @@ func gen(tier string, rng *h.Rng, emit func(string)) {
 	behs := []beh{
 		{"own-valid", func(x int, _ []int) []string { return []string{fmt.Sprintf("m1.0.V%d.0", x)} }},
 		{"trailing-byte", func(x int, _ []int) []string { return []string{fmt.Sprintf("m1.0.T%d.0", x)} }},
-		{"invalid-junk", func(x int, _ []int) []string { return []string{fmt.Sprintf("m1.0.J%d", x), fmt.Sprintf("m1.0.J%d", 200+x)} }},
+		{"invalid-junk", func(x int, _ []int) []string {
+			return []string{fmt.Sprintf("m1.0.J%d", x), fmt.Sprintf("m1.0.J%d", 200+x)}
+		}},
 		{"invalid-othershare", func(x int, _ []int) []string { return []string{fmt.Sprintf("m1.0.V%d.1", x)} }},
 		{"short-empty", func(x int, _ []int) []string { return []string{"m1.0.E"} }},
 		{"short-1", func(x int, _ []int) []string { return []string{"m1.0.S1"} }},
